@@ -595,6 +595,9 @@ def refine_sig(sig, case, detail):
             size = sum(1 if t <= 1 else 2 + dl for t, _, dl in L["opts"])
             bad = any((t <= 1 and dl > 0) or (t > 1 and (lf != dl or dl > 253)) for t, lf, dl in L["opts"]) or \
                 any(t == 0 for t, _, _ in L["opts"][:-1])
+            if sig.get("clause") == "serialize-total" and (size + 3) // 4 * 4 > 40:
+                sig["when"] = "ip-options-over-40"          # serialize() refuses: the header length, whatever the options
+                return sig
             if bad:
                 sig["when"] = "ip-add-option-unrepresentable"
                 return sig
